@@ -60,7 +60,23 @@ func genSleep(t *rapid.T) sleepCase {
 			if rapid.Bool().Draw(t, "gap2") {
 				add(gwgen.Adv(int64(rapid.SampledFrom(advs).Draw(t, "gapms2"))))
 			}
-			if rapid.IntRange(0, 3).Draw(t, "race") == 0 {
+			if race := rapid.IntRange(0, 7).Draw(t, "race"); race == 2 || race == 3 {
+				// a burst of publishes hits the gateway at the same instant as the PINGREQ, which is
+				// injected somewhere inside the burst (no settling anywhere in between)
+				c.Racing = true
+				nb := rapid.IntRange(2, 8).Draw(t, "burst")
+				at := rapid.IntRange(0, nb).Draw(t, "pingat")
+				for i := 0; i <= nb; i++ {
+					var st gwsim.Step
+					if i == at {
+						st = gwgen.SN(gwgen.Pingreq("cl"))
+					} else {
+						st = pub()
+					}
+					st.NoWait = i < nb
+					add(st)
+				}
+			} else if race <= 1 {
 				// a publish hits the gateway at the same instant as the PINGREQ
 				c.Racing = true
 				if rapid.Bool().Draw(t, "raceorder") {
@@ -98,10 +114,10 @@ func genSleep(t *rapid.T) sleepCase {
 func TestC11(t *testing.T) {
 	vf.Check(t, vf.Prop[sleepCase]{
 		ID: "C11", Name: "sleep-buffering", Bubble: true,
-		Rule: "connected session subscribed to '#'; 1-4 sleep cycles, each DISCONNECT(duration) followed by 1-3 wake-ups (PINGREQ with client ID) and ended by CONNECT (or by the next DISCONNECT(duration)); 0-3 broker publishes (QoS 0/1/2; short, predefined, registered and new topics; uniquely tagged payloads) before each wake-up at drawn offsets around RetryDelay, optionally one at the same instant as the PINGREQ (no settling between the two injections), optionally one between PINGRESP and the next wake-up. Non-trivial = at least one publish buffered during sleep; labels separate racing publishes and second-or-later cycles; distinct by script.",
+		Rule: "connected session subscribed to '#'; 1-4 sleep cycles, each DISCONNECT(duration) followed by 1-3 wake-ups (PINGREQ with client ID) and ended by CONNECT (or by the next DISCONNECT(duration)); 0-3 broker publishes (QoS 0/1/2; short, predefined, registered and new topics; uniquely tagged payloads) before each wake-up at drawn offsets around RetryDelay, optionally one, or a burst of 2-8 with the PINGREQ somewhere inside it, at the same instant as the PINGREQ (no settling between the injections), optionally one between PINGRESP and the next wake-up. Non-trivial = at least one publish buffered during sleep; labels separate racing publishes and second-or-later cycles; distinct by script.",
 		Assumptions: []string{"client state per doc/specification-interpretation.md: asleep from the gateway's DISCONNECT reply until PINGREQ, awake until the PINGRESP, asleep again until PINGREQ / CONNECT / DISCONNECT",
 			"publishes on topics that need a REGISTER first are only required to be silent during sleep and delivered at most once (their PUBLISH follows the client's REGACK, which the statement does not place)",
-			"which flush a publish racing with the PINGREQ lands in is not constrained"},
+			"which flush a publish racing with the PINGREQ lands in is not constrained; the order among the broker's messages is"},
 		Gen: genSleep,
 		Run: func(c sleepCase) (r vf.Result) {
 			tr := gwsim.Run(c.Script)
@@ -137,7 +153,6 @@ func checkSleep(c sleepCase, tr *gwsim.Trace, r *vf.Result) {
 	buffered := 0
 	cycle := 0
 	known := map[string]bool{"ab": true, "p/one": true, "t/a": true}
-	var lastCG *gwsim.Event
 	for i := range tr.Events {
 		e := tr.Events[i]
 		if e.Dir == gwsim.EV && e.What == "END" {
@@ -148,7 +163,6 @@ func checkSleep(c sleepCase, tr *gwsim.Trace, r *vf.Result) {
 			if e.SN == nil {
 				continue
 			}
-			lastCG = &tr.Events[i]
 			switch e.SN.Type {
 			case snref.DISCONNECT:
 				if e.SN.Duration > 0 && (st == active || st == asleep) {
@@ -188,10 +202,7 @@ func checkSleep(c sleepCase, tr *gwsim.Trace, r *vf.Result) {
 					}
 				}
 				// racing: injected at the same instant as a PINGREQ without settling in between
-				if j := i + 1; j < len(tr.Events) && tr.Events[j].Dir == gwsim.CG && tr.Events[j].SN != nil && tr.Events[j].SN.Type == snref.PINGREQ && tr.Events[j].Ns == e.Ns && c.Script.Steps[e.Step].NoWait {
-					racingTags[tag] = true
-				}
-				if lastCG != nil && lastCG.SN.Type == snref.PINGREQ && lastCG.Ns == e.Ns && lastCG.Step >= 0 && c.Script.Steps[lastCG.Step].NoWait {
+				if racesWithPing(c, tr, i) {
 					racingTags[tag] = true
 				}
 			}
@@ -255,11 +266,11 @@ func checkSleep(c sleepCase, tr *gwsim.Trace, r *vf.Result) {
 				if idx < 0 {
 					continue
 				}
+				// The gateway takes the broker's packets in one at a time, so the order among them is
+				// fixed whichever flush a racing one lands in: only the oldest owed message may come.
 				for _, o := range owed[:idx] {
-					if !racingTags[o] && !racingTags[tag] {
-						r.Fail("delivered-out-of-order", "%s delivered before %s which the broker sent earlier\n%s", tag, o, traceAround(tr, i))
-						break
-					}
+					r.Fail("delivered-out-of-order", "%s delivered before %s which the broker sent earlier\n%s", tag, o, traceAround(tr, i))
+					break
 				}
 				owed = append(owed[:idx], owed[idx+1:]...)
 			}
@@ -288,6 +299,29 @@ func checkSleep(c sleepCase, tr *gwsim.Trace, r *vf.Result) {
 	if cycle > 1 {
 		r.Label("multi-cycle")
 	}
+}
+
+// racesWithPing: the broker publish at event i was injected in an unbroken run of script steps without
+// settling (NoWait) which contains a wake-up PINGREQ, all at the same virtual instant.
+func racesWithPing(c sleepCase, tr *gwsim.Trace, i int) bool {
+	e := tr.Events[i]
+	if e.Step < 0 {
+		return false
+	}
+	steps := c.Script.Steps
+	lo, hi := e.Step, e.Step
+	for lo > 0 && steps[lo-1].NoWait {
+		lo--
+	}
+	for hi < len(steps)-1 && steps[hi].NoWait {
+		hi++
+	}
+	for k := lo; k <= hi; k++ {
+		if steps[k].SN != nil && steps[k].SN.Type == snref.PINGREQ {
+			return true
+		}
+	}
+	return false
 }
 
 // flushStart returns the time of the latest client PINGREQ before event i.
